@@ -98,6 +98,23 @@ Definition fmeta_eqb (a b : fmeta) : bool :=
 Definition mcase_ok (orig impl : fmeta) : bool * bool :=
   (fmeta_eqb (wrap_meta orig) impl, fmeta_eqb impl orig).
 
+(* ---- await stream: the operations go to a coroutine that awaits the callable's result --------- *)
+(* k = KGen: a generator function marked @types.coroutine; k = KCoro: a coroutine function *)
+Definition await_model (k : kind) (wrapped : bool) (t : table) (ops : list op) : zobs :=
+  enc_obs
+    (match k, wrapped with
+     | KCoro, false => awaited_observe KCoro (observed (tbody t)) nokill 0 ops
+     | KCoro, true => awaited_observe KCoro (wrap_coro (observed (tbody t)) nokill 0) (ckill (observed (tbody t)) nokill) CInit ops
+     | _, false => awaited_observe KGen (observed (tbody t)) nokill 0 ops
+     | _, true => awaited_observe KGen (wrap_gen repo_forwards KGen (observed (tbody t)) nokill 0)
+                                  (wkill (observed (tbody t)) nokill) WInit ops
+     end).
+
+(* judged whenever the body honours the close contract *)
+Definition acase_ok (k : kind) (wrapped : bool) (t : table) (ops : list op) (impl ref : zobs) : bool * bool :=
+  (zobs_eqb (await_model k wrapped t ops) impl,
+   negb (table_honours_close t) || zobs_eqb (zerase_obs impl) ref).
+
 (* ---- kern stream: decorated calls interleaved with ticks of kernprof's interval timer ---------- *)
 (* prof: 0 = LineProfiler (kernprof -l -i), 1 = ContextualProfile (kernprof -b -i); the decorated function
    returns its argument + 10.  impl: the results of the calls as observed under the real kernprof.main *)
